@@ -12,30 +12,67 @@ _T = "NumbersModel.Props.C09."
 THEOREMS = [_T + t for t in (
     "cell_ref_exact", "range_ends_not_swapped", "stored_rect_decoded", "row_span_exact", "col_span_exact",
     "prefix_printed", "prefix_unambiguous", "prefix_total", "a1_text_never_quoted", "empty_label_never_printed",
-    "label_scope_sound_partial", "pinned_empty_label_printed", "pinned_span_with_unnamed_end_raises",
-    "pinned_row_column_same_text")]
+    "name_scope_counts", "label_scope_sound", "span_scope_sound", "numeric_fallback_exact", "plain_qualification_sound",
+    "prefix_minimal", "prefix_minimal_partial", "cache_entry_facts", "name_kept_iff_spec_name",
+    "printed_text_resolves_partial", "cell_text_resolves_partial",
+    "pinned_empty_label_printed", "pinned_span_with_unnamed_end_raises", "pinned_row_column_same_text")]
 PARTIAL = {
-    _T + "label_scope_sound_partial":
-        "full statement: a header label printed with qualification q (bare / Table:: / Sheet::Table::) resolves, under the "
-        "document's own labels, to exactly the stored row/column of the stored table. Proved: a text that "
-        "_calculate_name_scopes keeps as a name occurs at most once among the header cells counted for its table (own "
-        "axis and, fixed code, the other axis) and is non-empty (empty_label_never_printed); a name is tagged DOCUMENT "
-        "iff exactly one (table, axis) of the document keeps it. The sheet/table scopes and their interplay with "
-        "expand_ref's prefix choice for labels are covered by the correspondence + independent resolver only.",
+    _T + "prefix_minimal_partial":
+        "full statement: whenever expand_ref prints a qualification in front of a header label, the text with one level "
+        "of qualification less (S::T:: -> T::, T:: -> none) no longer denotes the stored row/column. Proved for every "
+        "configuration EXCEPT the region AbsSheetScope hs ts host target s isAbs := isAbs ∧ hs.id = ts.id ∧ s.scope = "
+        ".sheet ∧ host.id ≠ target.id (absolute reference to a name that is unique in the host's sheet, held by another "
+        "table of that sheet): there the code prints T::$name on purpose (source comment: 'If absolute Numbers seems to "
+        "unnecessarily include the table name') and the second half of the theorem proves that $name alone would "
+        "denote the same target, i.e. the exception is exact. Not a defect of identification (label_scope_sound covers "
+        "the region); it is the only place where 'just enough' is not met. For A1/numeric references prefix_minimal is "
+        "full.",
+    _T + "printed_text_resolves_partial":
+        "full statement: the TEXT printed for any stored whole-row/column reference or span, read by the spec's text "
+        "reader resolveText, denotes exactly the stored table, rows/columns and $ marks. Proved under the hygiene "
+        "hypothesis PlainNames doc := (∀ sheet, NoCQ name) ∧ (∀ table, NoCQ name) ∧ (every header NAME x is a PlainLabel: "
+        "NoCQ x and its first character is not '$', 'A'..'Z' or a digit), NoCQ s := no ':' and no apostrophe in s. "
+        "Excluded region = ¬PlainNames doc, where the printed text is ambiguous as a string regardless of scoping "
+        "(label '$x' vs absolute 'x', label 'B' vs column B, apostrophes = known finding C18 apostrophe-in-name); the "
+        "structured theorems label_scope_sound / span_scope_sound hold there too.",
+    _T + "cell_text_resolves_partial":
+        "same text-level statement for cell and rectangle references (texts of cell_ref_exact / "
+        "range_ends_not_swapped read by resolveText); same hygiene hypothesis PlainNames doc (only its sheet/table-name "
+        "part is used).",
 }
 RULE = ("a case is one (document configuration, host cell, reference node) triple rendered by the real node_to_ref/str; "
         "distinct non-trivial = distinct (configuration, printed text, target) triples whose target is another table or "
-        "whose text contains a header label")
+        "whose text contains a header label; coverage.branch_hits counts, for whole-row/column references, the "
+        "(single|span, uniqueness level of the name or why there is none, host-target relation, abs, printed qualification) "
+        "combinations met; coverage.branches_missing lists required combinations not met (must be empty)")
 MANIFEST = {
     "text": "Core proved, glue assumed: cell_ref_exact (printed A1 text parses back to exactly host+offset / stored "
             "coordinates with the stored $ marks, via C10's cell_roundtrip), range_ends_not_swapped, row_span_exact / "
-            "col_span_exact (numeric spans), prefix_printed + prefix_unambiguous (the qualification expand_ref prints "
-            "resolves, under the document's own names, to exactly the stored table when sheet names are distinct and "
-            "table names are distinct within each sheet), a1_text_never_quoted. Name-scope calculation is modelled and "
-            "tied by correspondence; label_scope_sound_partial covers per-axis/document uniqueness only. "
-            "Correspondence: documents built with the real API (1..4 sheets x 1..4 tables, name/label pools), nodes as "
-            "real protobufs through the real node_to_ref/str; oracle = independent resolver of the printed text.",
-    "note": "table uuid -> id lookup and formatted header values are taken from the real model (opaque to the Lean model).",
+            "col_span_exact / numeric_fallback_exact (numeric spans), prefix_printed + prefix_unambiguous + "
+            "plain_qualification_sound (the qualification expand_ref prints resolves, under the document's own names, to "
+            "exactly the stored table when sheet names are distinct and table names are distinct within each sheet), "
+            "a1_text_never_quoted. Header labels: resolver spec Model/RefsSpec.lean (resolveLabel / resolveSpan / "
+            "resolveQual / resolveText: a header cell is a name iff its text is non-empty and shown by no other header "
+            "cell of its table; unqualified = unique in host table, else host's sheet, else document; T:: / S::T:: = in "
+            "the unique table so named) shares no code with the model of xrefs.py; label_scope_sound (FULL: for every "
+            "well-formed document, host cell, target table, row/column, relative or absolute, str(node_to_ref) succeeds "
+            "and the text is a label whose qualification + name resolveLabel maps to exactly (target, axis, index) — "
+            "DOCUMENT / SHEET / TABLE / NONE scopes and every prefix branch of expand_ref — or the numeric fallback "
+            "whose qualification denotes the target), span_scope_sound (same for a:b spans), cache_entry_facts (what a "
+            "name-cache entry means in the spec's terms), name_kept_iff_spec_name (the model keeps a name exactly where "
+            "the spec sees one, so the numeric fallback is printed iff there is no usable name), "
+            "printed_text_resolves_partial / cell_text_resolves_partial (the printed TEXT, read by the spec's text "
+            "reader resolveText, gives back the stored table, coordinates and $ marks; hygiene hypothesis PlainNames), "
+            "prefix_minimal (A1/numeric: one level of qualification less "
+            "no longer denotes the target), prefix_minimal_partial (labels: same, except the deliberately "
+            "over-qualified absolute sheet-scope case, characterised exactly). Correspondence: documents built with "
+            "the real API (random 1..4 sheets x 1..4 tables with name/label pools + directed 3..4-sheet naming "
+            "scenarios with every host x target x row/column), nodes as real protobufs through the real "
+            "node_to_ref/str vs the Lean model; the Lean resolver spec is run on every text the real library printed "
+            "and must return the stored target; oracle = independent Python resolver of the printed text; branch hit "
+            "counts in coverage.branch_hits.",
+    "note": "table uuid -> id lookup and formatted header values are taken from the real model (opaque to the Lean model). "
+            "Out of the quantifier: names containing '::' or apostrophes, header labels that look like cell references.",
     "technique": "Lean 4 proof + differential correspondence + independent resolver",
 }
 ASSUMPTIONS = [
@@ -155,6 +192,83 @@ class Config:
         return [[s, [dict(td) for td in tds]] for s, tds in self.desc]
 
 
+def build_from_desc(desc):
+    """build a document with the real API from a plain description [[sheet name, [table desc]]]; the header labels
+    are written into the innermost header column / row.  Returns (doc, [(sheet index, real Table, desc)])."""
+    from numbers_parser import Document
+    tables = []
+    doc = None
+    for si, (sname, tds) in enumerate(desc):
+        for ti, td in enumerate(tds):
+            if doc is None:
+                doc = Document(sheet_name=sname, table_name=td["name"], num_header_rows=td["hr"], num_header_cols=td["hc"],
+                               num_rows=td["nr"], num_cols=td["nc"])
+                tbl = doc.sheets[0].tables[0]
+            elif ti == 0:
+                doc.add_sheet(sname, td["name"], num_rows=td["nr"], num_cols=td["nc"])
+                tbl = doc.sheets[si].tables[0]
+                tbl.num_header_rows, tbl.num_header_cols = td["hr"], td["hc"]
+            else:
+                tbl = doc.sheets[si].add_table(td["name"], num_rows=td["nr"], num_cols=td["nc"],
+                                               num_header_rows=td["hr"], num_header_cols=td["hc"])
+            if td["hc"]:
+                for r in range(td["hr"], td["nr"]):
+                    if td["rowlabels"][r] != "":
+                        tbl.write(r, td["hc"] - 1, td["rowlabels"][r])
+            if td["hr"]:
+                for c in range(td["hc"], td["nc"]):
+                    if td["collabels"][c] != "":
+                        tbl.write(td["hr"] - 1, c, td["collabels"][c])
+            tables.append((si, tbl, td))
+    return doc, tables
+
+
+def scenario_desc(rng, variant: int):
+    """a directed naming configuration in which every branch of the scope computation and of expand_ref's prefix
+    choice occurs: 3 or 4 sheets; a table name duplicated across sheets ('Data'), unique table names, a table named
+    like a sheet and one named like a header label; header labels unique in the document / in their sheet only / in
+    their table only, repeated on one axis, shared by a row and a column, equal to a sibling table's name, empty,
+    with an operator character or a space; tables without header row / column and with two of them."""
+    sheets = rng.sample(SHEET_POOL, 4)[: 3 + variant % 2]
+    n = [0]
+
+    def u():
+        n[0] += 1
+        return f"d{variant}u{n[0]}"
+
+    def tbl(name, cols, rows, hr=1, hc=1):
+        cols, rows = list(cols), list(rows)
+        rng.shuffle(cols)
+        rng.shuffle(rows)
+        return {"name": name, "hr": hr, "hc": hc, "nr": hr + len(rows), "nc": hc + len(cols),
+                "rowlabels": [""] * hr + (rows if hc else [""] * len(rows)),
+                "collabels": [""] * hc + (cols if hr else [""] * len(cols))}
+    s0 = [tbl("Data", [u(), "tab", "dup", "dup", "Sales"], [u(), "shq", "", "a-b"]),
+          tbl("Sales", [u(), "tab", "x y", "", "only0"], [u(), "shr", "rr", "a-b"]),
+          tbl("Costs", [u(), "tab", "x", "c3", "pair"], ["x", u(), "rr", "pair2"], hr=1 + variant % 2)]
+    s1 = [tbl("Data", [u(), "tab", "Costs", "shq", "only0"], [u(), "r2", "pair", "pair2"]),
+          tbl("Table 2", [u(), "tab", "c2", "c3", ""], [u(), "shr", "r3", "x y"], hc=1 + (variant // 2) % 2)]
+    s2 = [tbl(sheets[1], [u(), "tab", "shq", "c9"], [u(), "shr", "only0"]),
+          tbl("Table 1", [u(), "tab", "k1", "k2"], ["", "", ""], hc=0),
+          tbl("Costs" if variant % 3 == 0 else "Table 3", ["", "", ""], [u(), "tab", "k1"], hr=0)]
+    desc = [[sheets[0], s0], [sheets[1], s1], [sheets[2], s2]]
+    if len(sheets) == 4:
+        desc.append([sheets[3], [tbl("Data", [u(), "tab", "shq"], [u(), "a-b", "only0"]),
+                                 tbl("Sales" if variant % 4 == 1 else "Table 4", [u(), "tab"], [u(), "shr"])]])
+    return desc
+
+
+class ScenarioConfig(Config):
+    def __init__(self, rng, variant: int):  # noqa: super().__init__ not called: built from an explicit description
+        desc = scenario_desc(rng, variant)
+        self.doc, self.tables = build_from_desc(desc)
+        self.desc = [(s, tds) for s, tds in desc]
+        self.model = self.doc._model
+        for _si, tbl, td in self.tables:
+            td["rowlabels"] = [self._fv(tbl, r, td["hc"] - 1) if td["hc"] else "" for r in range(td["nr"])]
+            td["collabels"] = [self._fv(tbl, td["hr"] - 1, c) if td["hr"] else "" for c in range(td["nc"])]
+
+
 # --------------------------------------------------------------------------- reference nodes (real protobufs)
 
 def make_node(cfg: Config, spec: dict):
@@ -252,6 +366,127 @@ def gen_ref(rng, cfg: Config):
     else:
         spec["ac"] = [[COL_OPEN]]
     return spec, exp
+
+
+def fixed_axis(rng, host, b, e):
+    """stored encoding of one axis with given ends (random `$` flags and storage layout)"""
+    ba, ea = rng.random() < 0.3, rng.random() < 0.3
+    if ba and ea:
+        rel, ab = [], [[b, e]] if (e != b or rng.random() < 0.5) else [[b]]
+    elif not ba and not ea:
+        rel, ab = [[b - host, e - host]] if (e != b or rng.random() < 0.5) else [[b - host]], []
+    elif ba:
+        rel, ab = [[e - host]], [[b]]
+    else:
+        rel, ab = [[b - host]], [[e]]
+    return rel, ab, ba, ea
+
+
+def systematic_refs(rng, cfg: Config):
+    """every (host table, target table, row / column of the target) as a whole-row / whole-column reference, relative
+    and absolute, plus a few spans per pair"""
+    for hi, (_s, _t, htd) in enumerate(cfg.tables):
+        for ti, (_s2, _t2, ttd) in enumerate(cfg.tables):
+            hrow, hcol = rng.randrange(htd["nr"]), rng.randrange(htd["nc"])
+            to = None if (ti == hi and rng.random() < 0.5) else ti
+            base = {"host": hi, "hrow": hrow, "hcol": hcol, "target": ti}
+            for ab in (False, True):
+                for r in range(ttd["nr"]):
+                    yield ({"kind": "cell", "to": to, "row": [r if ab else r - hrow, ab], "col": None},
+                           dict(base, kind="row1", r0=r, r0abs=ab))
+                for c in range(ttd["nc"]):
+                    yield ({"kind": "cell", "to": to, "row": None, "col": [c if ab else c - hcol, ab]},
+                           dict(base, kind="col1", c0=c, c0abs=ab))
+            named = {ax: sorted(h[1] for h in headers(ttd) if h[0] == ax) for ax in ("row", "col")}
+            for k in range(4):
+                spec = {"kind": "tract", "to": to, "rr": [], "ar": [[ROW_OPEN]], "rc": [], "ac": [[COL_OPEN]],
+                        "bits": [0, 0, 0, 0]}
+                rows = k % 2 == 0
+                pick = named["row" if rows else "col"]
+                if k < 2 and len(pick) >= 2:  # both ends named: the label form of a span
+                    b, e = sorted(rng.sample(pick, 2))
+                elif rows:
+                    b = rng.randrange(ttd["nr"])
+                    e = rng.randrange(b, ttd["nr"])
+                else:
+                    b = rng.randrange(ttd["nc"])
+                    e = rng.randrange(b, ttd["nc"])
+                if rows:
+                    rel, ab_, ba, ea = fixed_axis(rng, hrow, b, e)
+                    spec["rr"], spec["ar"], spec["bits"][0], spec["bits"][1] = rel, ab_, ba, ea
+                    yield spec, dict(base, kind="rows", r0=b, r1=e, r0abs=ba, r1abs=ea)
+                else:
+                    rel, ab_, ba, ea = fixed_axis(rng, hcol, b, e)
+                    spec["rc"], spec["ac"], spec["bits"][2], spec["bits"][3] = rel, ab_, ba, ea
+                    yield spec, dict(base, kind="cols", c0=b, c1=e, c0abs=ba, c1abs=ea)
+
+
+def classify(desc, exp, text):
+    """which branch of the scope computation / prefix choice a whole-row / whole-column reference exercises, computed
+    from the document's own names and the printed text only (for the branch-hit statistics in the evidence):
+    form | why-no-name or uniqueness level of the name | host-target relation | abs | printed qualification"""
+    flat = [(si, td) for si, (_s, tds) in enumerate(desc) for td in tds]
+    hsi, _htd = flat[exp["host"]]
+    tsi, ttd = flat[exp["target"]]
+    axis = "row" if exp["kind"] in ("row1", "rows") else "col"
+    idx = exp["r0"] if axis == "row" else exp["c0"]
+    ab = exp["r0abs"] if axis == "row" else exp["c0abs"]
+    span = exp["kind"] in ("rows", "cols")
+    rel = "same-table" if exp["host"] == exp["target"] else "same-sheet" if hsi == tsi else "other-sheet"
+    try:
+        nparts = len(split_outside_quotes(text, "::"))
+    except Unresolved:
+        nparts = 0
+    qual = {1: "bare", 2: "T::", 3: "S::T::"}.get(nparts, "?")
+    names = {(h[0], h[1]): h[2] for h in headers(ttd)}
+    name = names.get((axis, idx))
+    if span and name is not None and (axis, exp["r1"] if axis == "row" else exp["c1"]) not in names:
+        level = "named-then-unnamed-end"
+    elif name is None:
+        lab = (ttd["rowlabels"] if axis == "row" else ttd["collabels"])[idx]
+        has_header = ttd["hc"] if axis == "row" else ttd["hr"]
+        first = ttd["hr"] if axis == "row" else ttd["hc"]
+        own = [(ttd["rowlabels"] if axis == "row" else ttd["collabels"])[k]
+               for k in range(first, ttd["nr"] if axis == "row" else ttd["nc"])]
+        why = ("no-header" if not has_header else "inside-header" if idx < first else "empty" if lab == "" else
+               "repeated-on-axis" if own.count(lab) > 1 else "shared-by-row-and-column")
+        level = "unnamed:" + why
+    else:
+        ndoc = sum(1 for _si, td in flat for h in headers(td) if h[2] == name)
+        nsheet = sum(1 for si, td in flat if si == tsi for h in headers(td) if h[2] == name)
+        tuniq = sum(1 for _si, td in flat if td["name"] == ttd["name"]) == 1
+        level = "document" if ndoc == 1 else "sheet" if nsheet == 1 else "table" if tuniq else "none"
+        if any(td["name"] == name for _si, td in flat):
+            level += "+label-is-a-table-name"
+    return "|".join(["span" if span else "single", level, rel, "abs" if ab else "rel", qual])
+
+
+# the branches of `_calculate_scope_types` x `expand_ref` that the quick tier must exercise (checked on every run;
+# a missing one is reported in the evidence as `branches_missing` and as a note)
+REQUIRED_BRANCHES = [
+    "single|document|same-table|rel|bare", "single|document|same-sheet|rel|bare", "single|document|other-sheet|abs|bare",
+    "single|sheet|same-table|rel|bare", "single|sheet|same-sheet|rel|bare", "single|sheet|same-sheet|abs|T::",
+    "single|sheet|other-sheet|rel|T::", "single|sheet|other-sheet|rel|S::T::",
+    "single|table|same-table|rel|bare", "single|table|same-sheet|rel|T::", "single|table|other-sheet|abs|T::",
+    "single|none|same-table|rel|bare", "single|none|same-sheet|rel|T::", "single|none|other-sheet|rel|S::T::",
+    "single|unnamed:empty|other-sheet|rel|T::", "single|unnamed:repeated-on-axis|same-sheet|rel|T::",
+    "single|unnamed:shared-by-row-and-column|same-table|rel|bare", "single|unnamed:no-header|other-sheet|rel|S::T::",
+    "single|unnamed:inside-header|same-table|rel|bare",
+    "span|document|other-sheet|rel|bare", "span|sheet|same-sheet|rel|bare", "span|table|other-sheet|rel|T::",
+    "span|none|other-sheet|rel|S::T::",
+]
+
+
+def want_line(exp) -> str:
+    """the stored target in the driver's `refs resolve` output format"""
+    def one(e):
+        if e[0] == "cell":
+            return f"C,{e[1]},{e[3]},{int(e[2])},{int(e[4])}"
+        return f"{'R' if e[0] == 'row' else 'L'},{e[1]},{int(e[2])}"
+    want = expected_ends(exp)
+    if len(want) == 2 and want[0] == want[1]:
+        want = want[:1]
+    return f"ok {exp['target']} " + ";".join(one(e) for e in want)
 
 
 # --------------------------------------------------------------------------- oracle: independent resolver
@@ -445,7 +680,32 @@ def run(ctx: Ctx):
     rng = ctx.rng
     nconf = 24 if ctx.quick else 300
     nrefs = 300 if ctx.quick else 1000
+    nscen = 4 if ctx.quick else 24
     req, out = [], []
+    rreq, rout = [], []  # the resolver SPEC (Lean, Model/RefsSpec.lean) applied to the text the real library printed
+    branches: dict = {}
+
+    def one_case(cfg, dwords, desc, spec, exp):
+        req.append(f"refs str {dwords} {exp['host']} {exp['hrow']} {exp['hcol']} {node_words(spec)}")
+        try:
+            text = real_text(cfg, spec, exp)
+        except Exception as e:  # noqa: BLE001
+            out.append("err " + exc_name(e))
+            report(ctx, "reference-str-raises:" + exc_name(e),
+                   f"str(node_to_ref(...)) raised {exc_name(e)}: {e}", {"doc": desc, "spec": spec, "exp": exp})
+            return
+        out.append("ok " + enc_text(text))
+        rreq.append(f"refs resolve {dwords} {exp['host']} {enc_text(text)}")
+        rout.append(want_line(exp))
+        if exp["target"] != exp["host"] or not re.fullmatch(r"[$A-Z0-9:]*", text):
+            ctx.mark((dwords, text, exp["target"]))
+        if exp["kind"] in ("row1", "col1", "rows", "cols"):
+            b = classify(desc, exp, text)
+            branches[b] = branches.get(b, 0) + 1
+        v = judge(desc, exp, text)
+        if v:
+            report(ctx, v[0], v[1], {"doc": desc, "spec": spec, "exp": exp, "text": text})
+
     for _ci in range(nconf):
         cfg = Config(rng)
         dwords = cfg.words()
@@ -457,22 +717,35 @@ def run(ctx: Ctx):
                 dwords = cfg.words()
                 desc = cfg.plain()
             spec, exp = gen_ref(rng, cfg)
-            req.append(f"refs str {dwords} {exp['host']} {exp['hrow']} {exp['hcol']} {node_words(spec)}")
-            try:
-                text = real_text(cfg, spec, exp)
-            except Exception as e:  # noqa: BLE001
-                out.append("err " + exc_name(e))
-                report(ctx, "reference-str-raises:" + exc_name(e),
-                       f"str(node_to_ref(...)) raised {exc_name(e)}: {e}", {"doc": desc, "spec": spec, "exp": exp})
-                continue
-            out.append("ok " + enc_text(text))
-            if exp["target"] != exp["host"] or not re.fullmatch(r"[$A-Z0-9:]*", text):
-                ctx.mark((dwords, text, exp["target"]))
-            v = judge(desc, exp, text)
-            if v:
-                report(ctx, v[0], v[1], {"doc": desc, "spec": spec, "exp": exp, "text": text})
-    ctx.correspond(f"{nconf} documents (1..4 sheets x 1..4 tables) x {nrefs} reference nodes through node_to_ref/str",
-                   req, out)
+            one_case(cfg, dwords, desc, spec, exp)
+    nrandom = len(req)
+    # directed configurations: every branch of the scope computation / prefix choice, every host x target x row/column
+    for variant in range(nscen):
+        cfg = ScenarioConfig(rng, variant)
+        dwords = cfg.words()
+        desc = cfg.plain()
+        for spec, exp in systematic_refs(rng, cfg):
+            one_case(cfg, dwords, desc, spec, exp)
+        if variant % 2 == 1:
+            cfg.edit_headers(rng, n_edits=4)
+            dwords = cfg.words()
+            desc = cfg.plain()
+            for _ in range(200):
+                spec, exp = gen_ref(rng, cfg)
+                one_case(cfg, dwords, desc, spec, exp)
+    ctx.correspond(f"{nconf} random documents (1..4 sheets x 1..4 tables) x {nrefs} reference nodes + {nscen} directed "
+                   f"naming scenarios (3..4 sheets, every host x target x row/column, relative and absolute, spans) "
+                   f"through node_to_ref/str", req, out)
+    ctx.correspond("resolver spec (Lean resolveText) applied to the text printed by the real library == stored target",
+                   rreq, rout)
+    ctx.extra["cases_random"] = nrandom
+    ctx.extra["cases_directed"] = len(req) - nrandom
+    ctx.extra["branch_hits"] = dict(sorted(branches.items()))
+    missing = [b for b in REQUIRED_BRANCHES if not branches.get(b)]
+    ctx.extra["branches_required"] = len(REQUIRED_BRANCHES)
+    ctx.extra["branches_missing"] = missing
+    if missing:
+        ctx.notes.append("scope/prefix branches not exercised in this run: " + ", ".join(missing))
 
     # --- malformed tracts: the error behaviour of node_to_ref (missing lists) -----------------------------
     cfg = Config(rng)
@@ -495,37 +768,13 @@ def run(ctx: Ctx):
 
 def replay(data):
     """rebuild the stored configuration with the real API and print the reference again."""
-    from numbers_parser import Document
     i = data["input"]
     desc = i["doc"]
 
     class C:
         pass
     cfg = C()
-    cfg.tables = []
-    doc = None
-    for si, (sname, tds) in enumerate(desc):
-        for ti, td in enumerate(tds):
-            if doc is None:
-                doc = Document(sheet_name=sname, table_name=td["name"], num_header_rows=td["hr"], num_header_cols=td["hc"],
-                               num_rows=td["nr"], num_cols=td["nc"])
-                tbl = doc.sheets[0].tables[0]
-            elif ti == 0:
-                doc.add_sheet(sname, td["name"], num_rows=td["nr"], num_cols=td["nc"])
-                tbl = doc.sheets[si].tables[0]
-                tbl.num_header_rows, tbl.num_header_cols = td["hr"], td["hc"]
-            else:
-                tbl = doc.sheets[si].add_table(td["name"], num_rows=td["nr"], num_cols=td["nc"],
-                                               num_header_rows=td["hr"], num_header_cols=td["hc"])
-            if td["hc"]:
-                for r in range(td["hr"], td["nr"]):
-                    if td["rowlabels"][r] != "":
-                        tbl.write(r, td["hc"] - 1, td["rowlabels"][r])
-            if td["hr"]:
-                for c in range(td["hc"], td["nc"]):
-                    if td["collabels"][c] != "":
-                        tbl.write(td["hr"] - 1, c, td["collabels"][c])
-            cfg.tables.append((si, tbl, td))
+    doc, cfg.tables = build_from_desc(desc)
     cfg.model = doc._model
     try:
         text = real_text(cfg, i["spec"], i["exp"])
